@@ -18,6 +18,7 @@ CLAIMED = {
  "C06": (MC, "QuerySets.tla transcribes both combination paths (trait default with transmitted evaluations and their BTreeMap/BTreeSet re-association; homomorphic Marlin/Sonic/IPA path with constants subtracted and the degree-bound policy). 6 LC shapes x 3 query shapes, honest and perturbed (value, coefficient, constant, transmitted evaluations incl. sum-preserving); replayed on all 8 trait schemes.", "§4 C06", TECH_SESSION),
  "C11": (MC, "Sponges are logs in the spec (Transcript.tla: prover and verifier schedules written separately per scheme); histories of 2-3 operations on one shared sponge; invariant C11_LockStep after every prefix, and a perturbed verifier pre-state or transposed proofs must not be accepted; replay compares the full Poseidon state of both sides after every operation.", "§4 C11", TECH_SESSION),
  "C17": (MC, "spec/Admission.tla gives the class ok / refuse / unconstrained of every request; TLC enumerates magnitudes around every boundary (0, supported, supported+1, max, max+1) for setup, trim, commit (degree, bound, hiding, RNG presence, number of variables); replay under catch_unwind: refuse => Err or abort and no result; ok => no abort and the honest continuation verifies.", "§4 C17", TECH_SESSION),
+ "C13": (MC, "FixedPoint.tla carries certified lower/upper enclosures (432-bit directed-rounding limbs in TLA+) of (1-d/2)^t and of the threshold 2^-lambda - n/|F|, so Columns.tla yields per parameter set either refusal or the interval [tlo,thi] of the least admissible column count; calculate_t is compared point by point on a seeded grid (lambda 1..256, distances incl. 61/1521 and neighbours, n up to 2^40, four fields) wherever the interval closes; recorded honest openings (trace direction: code -> spec) are validated by TLC against the shape law (exactly t columns/paths, leaf index = transcript byte fold mod n); encoding linearity and declared length by random messages.", "§4 C13", "certified fixed-point oracle in TLA+ evaluated by TLC; calculate_t compared on a grid; recorded openings validated by TLC against the shape law"),
  "C14": (MC, "Folding.tla transcribes FoldedPolynomialTreeIter/StreamIter (init_stack, one action per branch of next) and StreamOpen.tla the space-efficient open / open_multi_points (deque, base-skip offsets) over the integers; TLC checks them against naive folds / polynomial division for all lengths 1..130 x depths 0..7 and all enumerated polynomials x point sets, and every TLC-computed case is executed on the real iterators, both provers and the verifier (time == space, proof == MSM of the spec's quotient with the paired key powers, accept truth / reject value+1).", "§4 C14", TECH_INT),
  "C15": (MC, "Combinations.tla is the position-vector machine of the multiset enumerator run on setup's input: TLC checks for the whole grid (num_vars, max_degree <= 5, thorough 6) that exactly all multisets are produced once; DivideAtPoint.tla checks the quotient identity for every small polynomial with mixed monomials; the real iterator, the real divide_at_point, the key set / element count / trapdoor pairing identities / trim filter of the real parameters are compared with TLC's output; PST13 sessions with mixed-monomial polynomials are replayed (C01/C02).", "§4 C15", TECH_INT),
  "C16": (MC, "LinComb.tla: the seven LinearCombination operators as actions with the value law as invariant over all operator sequences up to length 3-4; CheckPoly.tla: compute_coeffs loop against the product form for all challenge vectors of length 0..4; TLC's term lists / coefficient vectors are re-executed on the real types; randomized field-level sequences (length 12, challenge vectors 0..10) and evaluate_query_set on shared labels/points complete the quantifier.", "§4 C16", TECH_INT),
